@@ -621,7 +621,11 @@ fn expr_stmt_to_asg_stmt(expr_stmt: synast::ExprStmt, context: &mut Context) -> 
                 gate_call_expr_to_asg_stmt(gate_call, modifiers, context)
             } else {
                 let gphase = mod_gate_call.g_phase_call_expr().unwrap();
-                let arg = expr_to_asg_texpr(gphase.arg(), context).unwrap();
+                // `gphase()` parses, but `gphase` takes exactly one parameter.
+                let Some(arg) = expr_to_asg_texpr(gphase.arg(), context) else {
+                    context.insert_error(NumGateParamsError, &gphase);
+                    return None;
+                };
                 Some(asg::Stmt::ModifiedGPhaseCall(asg::ModifiedGPhaseCall::new(
                     arg, modifiers,
                 )))
@@ -629,7 +633,11 @@ fn expr_stmt_to_asg_stmt(expr_stmt: synast::ExprStmt, context: &mut Context) -> 
         }
 
         Some(GPhaseCallExpr(gphase)) => {
-            let arg = expr_to_asg_texpr(gphase.arg(), context).unwrap();
+            // `gphase()` parses, but `gphase` takes exactly one parameter.
+            let Some(arg) = expr_to_asg_texpr(gphase.arg(), context) else {
+                context.insert_error(NumGateParamsError, &gphase);
+                return None;
+            };
             Some(asg::Stmt::GPhaseCall(asg::GPhaseCall::new(arg)))
         }
 
